@@ -7,6 +7,7 @@ orchestrator/src/file_formatter.rs) and requires each to be
     (body, kind, canonical operands), so any change of the site's operands or a new site is reported.
 """
 import json
+import re
 import os
 from collections import defaultdict
 
@@ -372,6 +373,18 @@ def guard_sub(prog, site):
                 ok = True
         if ok and stable(body, a, cb, site.bb) and stable(body, b, cb, site.bb):
             return "sub-guarded by dominating %s(%s, %s)" % (op, op_canon(body, x), op_canon(body, y))
+    # len(S) - i where i is the position of a match found by a library search *in S itself*: std documents these as byte offsets
+    # into the haystack, so i <= len(S)  (find / rfind / (r)match_indices / char_indices on S)
+    if a["k"] in ("copy", "move") and b["k"] in ("copy", "move"):
+        ca, cb2 = op_canon(body, a), op_canon(body, b)
+        m = re.match(r"^len\((.+)\)$", ca)
+        if m:
+            S = re.escape(m.group(1))
+            pats = [r"^r?find\(%s,.*\)@Some\.0$" % S,
+                    r"^(nth|next|next_back|last|nth_back)\((rev\()?r?match_indices\(%s,.*\)\)?.*\)@Some\.0\.0$" % S,
+                    r"^(nth|next|next_back|last|nth_back)\((rev\()?char_indices\(%s\)\)?.*\)@Some\.0\.0$" % S]
+            if any(re.match(p2, cb2) for p2 in pats):
+                return "sub-guarded: the subtrahend is the offset of a match found by a std search in the very string whose length is the minuend"
     # a = len(v) and a dominating `!v.is_empty()` with b == 1
     if b["k"] == "const" and b.get("int") == 1 and a["k"] in ("copy", "move"):
         ca = op_canon(body, a)
